@@ -617,9 +617,39 @@ def unknown_bib(num=10):
     return dict(type=11, num=num, data_hex=asb.hex())
 
 
+FLAG_ACME_REQUEST = FLAG_USER_APP_ACK
+ACME_RECORD_TYPE = 65536
+
+
+def acme_record_hex(kind, id_chal=b'idchal-never-registered'):
+    ''' Payload of an ACME administrative record (bp/app/admin.py, record type 65536) that the admin element
+    REJECTS, i.e. records 'delete' for after the bundle was accepted for delivery:
+      'response'  a response whose id-chal was never registered by send_acme_request,
+      'request'   a request (bundle flag USER_APP_ACK) whose id-chal was never registered by start_expect_acme_request,
+      'no-alg'    a request for a registered id-chal (case key acme_expect) offering no acceptable hash algorithm. '''
+    if kind == 'response':
+        msg = {1: id_chal, 2: b'token-bundle', 3: [-16, b'h' * 32]}
+    elif kind == 'request':
+        msg = {1: id_chal, 2: b'token-bundle', 4: [-16]}
+    elif kind == 'no-alg':
+        msg = {1: id_chal, 2: b'token-bundle', 4: [999]}
+    else:
+        raise ValueError(kind)
+    return cbor2.dumps([ACME_RECORD_TYPE, msg]).hex()
+
+
+def refused_acme_spec(kind, node_id, **fields):
+    ''' A bundle for the node's administrative endpoint that the admin element refuses (model input refuse). '''
+    id_chal = b'idchal-registered' if kind == 'no-alg' else b'idchal-never-registered'
+    flags = int(fields.pop('flags', 0)) | FLAG_PAYLOAD_ADMIN | (0 if kind == 'response' else FLAG_ACME_REQUEST)
+    spec = dict(dest=node_id, flags=flags, payload_hex=acme_record_hex(kind, id_chal), refuse=True)
+    spec.update(fields)
+    return spec
+
+
 def spec_for_encode(spec):
     out = dict(spec)
-    for key in ('sec', 'prep', 'note', 'model_size', 'model_fragfeas'):
+    for key in ('sec', 'prep', 'note', 'model_size', 'model_fragfeas', 'refuse'):
         out.pop(key, None)
     if 'payload_hex' in out:
         out['payload'] = bytes.fromhex(out.pop('payload_hex'))
@@ -686,12 +716,12 @@ def coq_bundle(spec, tab, size, fragfeas=True):
     payload = spec_for_encode(spec).get('payload', b'')
     bad = set(spec.get('bad_crc', ()))
     sec = spec.get('sec')
-    return '(mkBundle %d %d %d %d %d %s %d %d %s %s %d %d %s)' % (
+    return '(mkBundle %d %d %d %d %d %s %d %d %s %s %d %d %s %s)' % (
         tab.get(spec.get('src')), tab.get(spec.get('dest')), tab.get(spec.get('report_to')),
         spec.get('time', 0), spec.get('seq', 0), coq_opt_pair(spec.get('frag')), flags, len(payload),
         'false' if bad else 'true',
         '(@None N)' if sec is None else '(Some %d)' % sec,
-        spec.get('prep', 0), size, 'true' if fragfeas else 'false')
+        spec.get('prep', 0), size, 'true' if fragfeas else 'false', 'true' if spec.get('refuse') else 'false')
 
 
 def coq_case(case):
@@ -744,6 +774,12 @@ def run_case_impl(case, extra=None):
     drv = BpDriver(node_id=case['node_id'], rx_routes=[tuple(item) for item in case['rx_routes']],
                    tx_routes=case['tx_routes'], clock=Clock(now_ms=case.get('now_ms', 800000000000), tick=0),
                    **(extra or {}))
+    if case.get('acme_expect'):
+        # id-chal values the admin element is told to expect requests for (so that a request reaches the
+        # hash-algorithm negotiation)
+        from bp.app.admin import AcmeChallenge
+        for id_chal in case['acme_expect']:
+            drv.agent._app['admin'].start_expect_acme_request(AcmeChallenge.b64encode(id_chal.encode()), 'token-chal', 'key-thumbprint')
     obs = [drv.recv(encode_bundle(spec_for_encode(spec))) for spec in case['hist']]
     return (drv, obs)
 
